@@ -120,6 +120,10 @@ func (g *gen) basic(family string, i int, seed uint64) *scenario {
 		sc.Features = append(sc.Features, "desired-foreign-uid-label")
 	}
 	sc.Hook.Kind = "const"
+	if r.Chance(1, 6) {
+		sc.Hook.PlainOwnerRef = true // the hook lists the parent as an owner itself, not as the controller
+		sc.Features = append(sc.Features, "hook-sets-plain-owner-ref")
+	}
 	switch r.Intn(4) {
 	case 0:
 		sc.Hook.Status = J{"ready": int64(nd)}
@@ -414,10 +418,49 @@ func (g *gen) statusy(i int, seed uint64) *scenario {
 	case 3:
 		sc.Hook.Status = J{"conditions": A{J{"type": "Updated", "status": "False"}}, "replicas": int64(3)}
 	}
+	if r.Chance(1, 4) {
+		// after the warm-up the hook's status shrinks: keys dropped, values emptied
+		sc.Warmup = true
+		full := J{"message": "all good", "conditions": A{J{"type": "Ready", "status": "True"}}, "replicas": int64(3), "extra": J{"a": int64(1)}}
+		sc.Hook.Status, sc.Hook.NullStatus = full, false
+		h2 := sc.Hook
+		switch r.Intn(3) {
+		case 0:
+			h2.Status = J{"conditions": A{}, "replicas": int64(3), "extra": J{}}
+		case 1:
+			h2.Status = J{"replicas": int64(3)}
+		default:
+			h2.Status = J{"message": "", "conditions": A{J{"type": "Ready", "status": "True"}}, "replicas": int64(0), "extra": J{"a": int64(1)}}
+		}
+		sc.Hook2 = &h2
+		sc.Features = append(sc.Features, "status-shrinks")
+	}
+	plain := sc.Ctl.ParentNamespaced && r.Chance(1, 4)
+	if plain {
+		// a parent kind without the status subresource: the status goes out with a whole-object update
+		sc.Ctl.ParentResource, sc.Ctl.ParentKind = "plainthings", "PlainThing"
+		sc.Parent["kind"] = "PlainThing"
+		sc.Features = append(sc.Features, "parent-without-status-subresource")
+	}
 	sc.Rounds = nil
 	for j := 0; j < 2+r.Intn(2); j++ {
 		rs := roundSpec{}
 		ref := sc.parentRef()
+		if plain && r.Bool() {
+			// somebody edits spec and labels between the controller's read of the parent and its write: a conflict, then a retry
+			e := sc.parentRef()
+			e.Op, e.Data = "edit", J{"spec": J{"selector": sc.Parent["spec"].(J)["selector"], "replicas": int64(40 + j), "foo": "edited"}}
+			l := sc.parentRef()
+			lbl := J{"team": "blue"}
+			if cur, ok := sc.Parent["metadata"].(J)["labels"].(J); ok {
+				for k, v := range cur {
+					lbl[k] = v
+				}
+			}
+			l.Op, l.Data = "relabel", lbl
+			rs.FaultOn = append(rs.FaultOn, faultOn{Verb: "update", Kind: sc.Ctl.ParentKind, AfterHook: true, Nth: 0, Ops: []extOp{e, l}})
+			sc.Features = append(sc.Features, "parent-edited-between-read-and-write")
+		}
 		switch r.Intn(6) {
 		case 0:
 			ref.Op, ref.Data = "edit", J{"spec": J{"selector": sc.Parent["spec"].(J)["selector"], "replicas": int64(7)}}
@@ -816,6 +859,10 @@ func (g *gen) rollout(i int, seed uint64, fair bool) *scenario {
 	if !namespaced && kid.Namespaced {
 		tmd["namespace"] = "ns2"
 	}
+	if ctl.GenSelector && r.Bool() {
+		delete(tmd, "labels") // with a generated selector the children need no labels of their own
+		sc.Features = append(sc.Features, "children-without-labels")
+	}
 	sc.Hook = hookProgram{Kind: "template", Children: []J{{"apiVersion": kid.APIVersion, "kind": kid.Kind, "metadata": tmd, "spec": J{}}}}
 	switch r.Intn(4) {
 	case 0:
@@ -1027,10 +1074,26 @@ func (g *gen) converge(i int, seed uint64) *scenario {
 		sc.Hook.Kind = "echo-meta"
 		sc.Features = append(sc.Features, "hook-echo-annotations")
 	}
+	unmatch := false
+	if r.Chance(1, 8) && sc.Ctl.CtlSelector == nil {
+		// the parent stops matching the controller's label selector: the finalize hook cleans up
+		sc.Ctl.CtlSelector = map[string]string{"managed": "yes"}
+		sc.Parent["metadata"].(J)["labels"] = J{"managed": "yes"}
+		sc.Ctl.Finalize = true
+		sc.Hook.FinalizedAlways, sc.Hook.FinalizedIfEmpty, sc.Hook.FinalizeChildren = true, false, nil
+		unmatch = true
+		sc.Features = append(sc.Features, "parent-unmatched-then-finalized")
+	}
 	sc.Rounds = nil
 	n := 6 + 2*len(sc.Hook.Children)
 	for j := 0; j < n; j++ {
-		sc.Rounds = append(sc.Rounds, roundSpec{PreOps: healthy})
+		rs := roundSpec{PreOps: healthy}
+		if unmatch && j == 3 {
+			ref := sc.parentRef()
+			ref.Op, ref.Data = "relabel", J{"managed": "no"}
+			rs.PreOps = append(append([]extOp{}, healthy...), ref)
+		}
+		sc.Rounds = append(sc.Rounds, rs)
 	}
 	return sc
 }
@@ -1063,6 +1126,18 @@ func generateScenarios(prop string, seed uint64, n int, adv bool) []*scenario {
 			sc.Hook2 = &h2
 			sc.Features = append(sc.Features, "hook-changes-mind")
 			out = append(out, sc)
+		case prop == "C02" && i%16 == 4:
+			// a rolling-update controller whose ControllerRevisions are replaced by new incarnations behind its back
+			sc := g.rollout(i, s, true)
+			for ri := range sc.Rounds {
+				if sc.Rounds[ri].MidOps == nil {
+					sc.Rounds[ri].MidOps = map[string][]extOp{}
+				}
+				idx := fmt.Sprint(r.Intn(5))
+				sc.Rounds[ri].MidOps[idx] = append(sc.Rounds[ri].MidOps[idx], extOp{Op: "recreate-revisions"})
+			}
+			sc.Features = append(sc.Features, "revisions-recreated-after-cache")
+			out = append(out, sc)
 		case prop == "C02" && i%8 == 0:
 			sc := g.basic("basic", i, s)
 			sc.Ctl.SSA = true
@@ -1076,6 +1151,30 @@ func generateScenarios(prop string, seed uint64, n int, adv bool) []*scenario {
 			out = append(out, g.adoptrace(i, s))
 		case prop == "C10" && i%8 == 1:
 			out = append(out, g.rolloutFinalize(i, s))
+		case prop == "C04" && i%8 == 4:
+			// orphaned ControllerRevisions to adopt while the live parent is gone, dying or replaced
+			sc := g.rollout(i, s, true)
+			if len(sc.Rounds) > 4 {
+				sc.Rounds = sc.Rounds[:4]
+			}
+			at := r.Intn(len(sc.Rounds))
+			sc.Rounds[at].PreOps = append(sc.Rounds[at].PreOps, extOp{Op: "orphan-revisions"})
+			p := sc.parentRef()
+			switch r.Intn(3) {
+			case 0:
+				p.Op, p.Data = "deleting", J{"finalizers": A{"example.com/other"}}
+				sc.Features = append(sc.Features, "parent-deleting-after-cache")
+			case 1:
+				p.Op = "recreate"
+				sc.Features = append(sc.Features, "parent-recreated-after-cache")
+			default:
+				p.Op = ""
+			}
+			if p.Op != "" {
+				sc.Rounds[at].LateOps = append(sc.Rounds[at].LateOps, p)
+			}
+			sc.Features = append(sc.Features, "orphan-revisions")
+			out = append(out, sc)
 		case prop == "C04" && i%2 == 1:
 			out = append(out, g.adoptrace(i, s))
 		case prop == "C10" && i%4 != 0:
@@ -1140,6 +1239,15 @@ func generateScenarios(prop string, seed uint64, n int, adv bool) []*scenario {
 			default:
 				out = append(out, g.rollout(i, s, i%2 == 0))
 			}
+		case prop == "C06" && i%5 == 0:
+			// the API server refuses an in-place update (an immutable field, say): the strategy still decides the verb
+			sc := g.basic("basic", i, s)
+			if len(sc.Ctl.Kids) > 0 && len(sc.Rounds) > 0 {
+				k := sc.Ctl.Kids[r.Intn(len(sc.Ctl.Kids))]
+				sc.Rounds[0].FaultOn = []faultOn{{Verb: "update", Kind: k.Kind, AfterHook: true, Nth: 0, Fault: J{"code": 422, "reason": "Invalid"}}}
+				sc.Features = append(sc.Features, "child-update-refused-422")
+			}
+			out = append(out, sc)
 		case prop == "C12" && i%12 == 6:
 			// a rolling-update controller (the ControllerRevision path of the hook calls) whose hook says 429
 			sc := g.rollout(i, s, true)
@@ -1157,23 +1265,27 @@ func generateScenarios(prop string, seed uint64, n int, adv bool) []*scenario {
 		case prop == "C13" && i%8 == 0:
 			// a rolling-update controller writes its own condition into the status the hook returned:
 			// conditions of every wrong shape
-			sc := g.rollout(i, s, true)
+			sc := g.rollout(i, s, i%16 == 0)
 			sc.Family = "malformed"
 			bad := []interface{}{"Ready", nil, int64(7), true, A{J{"type": "Updated"}}, 2.5}[r.Intn(6)]
 			conds := A{bad}
 			if r.Bool() {
 				conds = A{J{"type": "Ready", "status": "True"}, bad, J{"type": "Updated", "status": "Unknown"}}
 			}
-			switch r.Intn(3) {
+			switch r.Intn(5) {
 			case 0:
 				sc.Hook.Status = J{"conditions": conds}
 			case 1:
 				sc.Hook.Status = J{"conditions": bad}
-			default:
+			case 2:
 				sc.Hook.Status = J{"conditions": J{"type": "Updated"}}
+			case 3:
+				sc.Hook.Status, sc.Hook.OmitStatus, sc.Hook.NullStatus = nil, true, false // no status at all
+			default:
+				sc.Hook.Status, sc.Hook.OmitStatus, sc.Hook.NullStatus = nil, false, true // status: null
 			}
-			if len(sc.Rounds) > 3 {
-				sc.Rounds = sc.Rounds[:3]
+			if len(sc.Rounds) > 5 {
+				sc.Rounds = sc.Rounds[:5]
 			}
 			sc.Features = append(sc.Features, "malformed-status-conditions", "rolling")
 			out = append(out, sc)
